@@ -16,15 +16,31 @@ LEVEL_NOTE = ("Proof level covers peel, getConnComps (model theorems are partial
               "extent along the growth direction is <= rankSep (the hypothesis is necessary: closed witness = known "
               "finding C14-tree-rank-distance); the C++ is tied to the model by exact equality of every centre, every "
               "m_boundsByRank entry, m_lb/m_ub and isSymmetrical() on generated trees with dyadic sizes/separations. "
-              "OrthoPlanariser::planarise (no two edges cross, original nodes kept, adjacencies realised by "
-              "chains of new nodes) is validator-only: algorithm not modelled, outputs checked exactly "
-              "(rational arithmetic) by Lean checkers on sampled inputs.")
+              "OrthoPlanariser::planarise: Model/Planarise.lean is an executable Rat model of the whole planariser as coded "
+              "(buildUniqueBendPoints/NearbyObjectFinder, EdgeSegment constructor, partition with running average, computeNodeGroups, "
+              "CompareActiveEvents with its tolerance, the computeCrossings sweep with openH/openV and the event/segment re-pointing, "
+              "std::sort as libstdc++ insertion sort); Props/C19Planarise.lean proves for ALL segment lists that are axis-parallel, "
+              "have end coordinates equal or more than 1 apart and do not overlap on a line (hypothesis Good, decidable form goodB) that "
+              "the sweep reports a crossing node exactly at the points where a horizontal h and a vertical v satisfy "
+              "h.lo < v.cc <= h.hi, v.lo < h.cc < v.hi (crossings_sound, crossings_complete; = proper crossings when no right end touches "
+              "a vertical, crossings_iff_proper), that every input segment stays connected end to end through crossing nodes only "
+              "(planarise_preserves_nodes_and_connections_partial: crossing-removal stage only, route order not stated), that original "
+              "nodes are kept (all inputs), that std::sort returns a sorted permutation for strict weak orders, that the comparator is "
+              "lexicographic on separated coordinates but orders CLOSE before OPEN for every vertical not longer than the tolerance and "
+              "is not a strict weak order in general; closed witnesses short_segment_missorted / short_segment_disconnects (known finding "
+              "C19-planarise-shortseg in the model, replayed against the library every run) and ttouch_asymmetric. The library is tied to "
+              "the model by exact equality of bend nodes, overlap-free graph and planar graph (new nodes renamed in creation order) on the "
+              "planx-* classes; cases whose library result depends on std::sort tie handling, heap addresses or double rounding of the "
+              "running average are detected and only counted. NOT proved: that no two edges of the result properly cross, and the "
+              "overlap-removal stage (both validated per run on separated inputs).")
 TECHNIQUE = "Lean 4 theorems (own list-based graph theory) + correspondence harness + verified output checkers"
 RULE = ("generated simple graphs (random connected, trees incl. one/two-centre paths, cycles, unicyclic, cores with "
         "hanging trees/paths, disconnected unions; rooted trees of 5-60 nodes fed directly to Tree::symmetricLayout "
         "(random, lopsided, uneven caterpillars/spiders, the 14-node witness family, four growth directions; classes layoutx-*: "
         "the same shapes plus deep paths, stars, nested lopsided subtrees, 1-4 node trees with anisotropic / quarter-valued sizes, "
-        "nodeSep and rankSep incl. 0 and rankSep below the extents, both convexOrdering values — exact tie with the Lean model); orthogonally routed graphs on a grid with many crossings and bundles); "
+        "nodeSep and rankSep incl. 0 and rankSep below the extents, both convexOrdering values — exact tie with the Lean model); orthogonally routed graphs on a grid with many crossings and bundles; classes planx-*: grids of crossing routes, T-touches on all four sides, "
+        "collinear overlaps and parallels 0.25..1.25 apart, jogs of length 0.25..2 around the tolerances, routes through node centres, staircases crossing "
+        "one edge several times, random orthogonal routes on coarse and quarter-step pools, bends 0..1 apart, the closed witnesses of Props/C19Planarise); "
         "a case is non-trivial if at least one leaf was peeled / more than one component / at least one crossing node was created")
 TRUSTED_BASE = ["Lean 4.33 kernel", "axioms: propext, Classical.choice, Quot.sound",
                 "harness + hex-float import", "Lean compiler for the driver",
